@@ -1,4 +1,4 @@
-import HL.Model.Parser
+import HL.Lemmas.ParserList
 /-
   The parser never reads its error list: running any parse function on a state whose error
   list has an extra prefix `p` gives the same result, with the same prefix in front of the
